@@ -86,8 +86,9 @@ func strVarNonWindows(list []ast.Stmt, name string, cur string, known bool) (str
 					if id.Name != name {
 						continue
 					}
-					if i >= len(vs.Values) {
-						return "", false, fmt.Errorf("declaration of %s without a value", name)
+					if i >= len(vs.Values) { // `var name string`: the zero value
+						cur, known = "", true
+						continue
 					}
 					s, ok := strLit(vs.Values[i])
 					if !ok {
